@@ -109,6 +109,15 @@ theorem C12_silent_after_terminated (hist : List (Req × Hint)) :
   obtain ⟨st, h⟩ := C12_lifecycle_monitor hist
   exact ⟨_, silent_of_life true _ _ _ h⟩
 
+open Writer in
+/-- the forwarders' share of the clause, for EVERY interleaving of the session's latch store, the lock
+acquisitions and the writes of the three writers: once the session has written a message with the latch
+set (it sets the latch before it writes `terminated`), every later message on the wire is the session's
+(responses to later requests) — no forwarder `output` follows `terminated` -/
+theorem C12_forwarders_silent_after_terminated (acts : List LAct) :
+    quietAfterLatched (lrun acts).wire = true :=
+  (qinv_run acts {} qinv_init).1
+
 /-- the former counterexample (`initialized` was sent after `terminated`):
 `corpus/C12/initialize-after-terminated.req` -/
 def witnessInitializeAfterTerminated : List (Req × Hint) :=
@@ -166,6 +175,11 @@ theorem C12_error_not_silence_run_rule (s : Sess) (r : Req) (h : Hint) (ha : s.a
 #guard Writer.wireSeqs [1, 0, 0, 1] == [1]
 #guard Writer.wireSeqs [1, 0, 0, 1, 0, 0] == [1, 2]
 #guard Writer.wireSeqs [0, 0, 1, 1, 2, 2, 0, 0] == [1, 2, 3, 4]
+-- latch: a forwarder that locked before the latch was set still writes, but ahead of `terminated`; one that
+-- locks afterwards writes nothing.  Without the check (as found) the last one would follow `terminated`
+#guard (Writer.lrun [.lock 1, .setLatch, .write 1, .lock 0, .write 0, .lock 2, .write 2, .lock 0, .write 0]).wire
+  == [(1, false), (0, true), (0, true)]
+#guard !Writer.quietAfterLatched [(1, false), (0, true), (2, false)]
 
 -- tie to the source (table regenerated from session/mod.rs on every run; string-level, hence tests):
 -- every modelled command is an arm of `dispatch`, `frobnicate` is not, exactly `terminate` and
@@ -174,6 +188,7 @@ theorem C12_error_not_silence_run_rule (s : Sess) (r : Req) (h : Hint) (ha : s.a
 #guard !Gen.DapDispatch.commands.contains (cmdName .frobnicate)
 #guard Gen.DapDispatch.endsSession == [cmdName .terminate, cmdName .disconnect]
 #guard Gen.DapDispatch.seqUnderLock
+#guard Gen.DapDispatch.latchUnderLock
 
 /-- non-vacuity of `C12_error_not_silence`: a live session and a request that must fail -/
 example : ({} : Sess).alive = true ∧ mustFail {} { seq := 7, cmd := .stackTrace, mutn := .valid } = true := by decide
